@@ -269,3 +269,52 @@ Proof.
     + left. congruence.
     + right. eauto.
 Qed.
+
+(* ---- the context of a LATER load: only its string table matters for plain arguments ------------------------------------------- *)
+
+Lemma dec_arg_plain_ctx cx cx' c n : plain_codec c = true -> cx_str cx = cx_str cx' -> dec_arg cx' c n = dec_arg cx c n.
+Proof. intros Hp Hs. destruct c; try discriminate; cbn [dec_arg]; rewrite ?Hs; reflexivity. Qed.
+
+Lemma decode_entry_plain_ctx cx cx' te r :
+  (forall a c f, In (a, c, f) (te_dec te) -> plain_codec c = true) -> cx_str cx = cx_str cx' ->
+  decode_entry rarg (dec_arg cx') te r = decode_entry rarg (dec_arg cx) te r.
+Proof.
+  intros Hp Hs. unfold decode_entry. apply mapM_ext_in. intros [[a c] f] Hin.
+  destruct (rec_get f r); [|reflexivity]. cbn [bind]. rewrite (dec_arg_plain_ctx cx cx' c _ (Hp _ _ _ Hin) Hs). reflexivity.
+Qed.
+
+(* an authored action whose arguments are all plain, saved under context cx, is read back with exactly the authored arguments
+   by ANY later load whose string table is the one the save wrote - whatever that load's location, switch and unit-property
+   tables look like *)
+Theorem authored_plain_action_reads_back_after_reload cx cx' key args fl v :
+  encode_entry_of cx gen_action_table action_flags_codec action_record_fields (ERich key args fl) = Ok v ->
+  length fl = 5%nat -> N.of_nat (length (sl_by_id (cx_str cx))) <= 1000000 -> cx_str cx = cx_str cx' ->
+  (forall te a c f, find_entry key gen_action_table = Some te -> In (a, c, f) (te_dec te) -> plain_codec c = true) ->
+  (forall te a c f x, find_entry key gen_action_table = Some te -> In (a, c, f) (te_dec te) -> arg_get rarg a args = Ok x ->
+     arg_member c x) ->
+  exists te args',
+    find_entry key gen_action_table = Some te /\
+    decode_entry_of cx' gen_action_table "TriggerActionId" "_action_id" action_flags_codec action_record_fields v
+      = Ok (Some (ERich key args' fl)) /\
+    forall a c f, In (a, c, f) (te_dec te) ->
+      arg_get rarg a args' = arg_get rarg a args \/
+      (exists d, wav_duration cx args = Ok d /\ arg_get rarg a args' = Ok (AInt d)).
+Proof.
+  intros H Hlen Hsmall Hs Hplain Hmem.
+  destruct (authored_plain_action_reads_back_identically cx key args fl v H Hlen Hsmall) as (te & args' & Hf & Hd & Hargs).
+  - intros te a c f x Hf Hrow Hx. split; [eapply Hplain; eauto | eapply Hmem; eauto].
+  - exists te, args'. split; [exact Hf|]. split; [|exact Hargs].
+    rewrite <- Hd. unfold decode_entry_of. cbv zeta.
+    destruct (negb (enum_has "TriggerActionId" (vint "_action_id" v))); [reflexivity|].
+    destruct (vint "_action_id" v =? NO_ENTRY); [reflexivity|].
+    destruct (find_entry (vint "_action_id" v) gen_action_table) as [te0|] eqn:Ef0; [|reflexivity].
+    assert (te0 = te) as ->.
+    { (* the record's type byte is the authored key *)
+      unfold decode_entry_of in Hd. cbv zeta in Hd.
+      destruct (negb (enum_has "TriggerActionId" (vint "_action_id" v))); [discriminate|].
+      destruct (vint "_action_id" v =? NO_ENTRY); [discriminate|]. rewrite Ef0 in Hd.
+      destruct (decode_entry rarg (dec_arg cx) te0 (val_rec action_record_fields v)); [|discriminate]. cbn [bind] in Hd.
+      destruct (flags_of action_flags_codec (vint "_flags" v)); [|discriminate]. cbn [bind] in Hd.
+      inversion Hd as [Hkey]. rewrite Hkey in Ef0. congruence. }
+    rewrite (decode_entry_plain_ctx cx cx' te _ (fun a c f Hin => Hplain te a c f Hf Hin) Hs). reflexivity.
+Qed.
